@@ -82,7 +82,7 @@ Theorem C05_registered_classes :
   class_of error_registry "B" (-32700) = "ParseError" /\ class_of error_registry "B" (-32600) = "InvalidRequestError"
   /\ class_of error_registry "B" (-32601) = "MethodNotFoundError" /\ class_of error_registry "B" (-32602) = "InvalidParamsError"
   /\ class_of error_registry "B" (-32603) = "InternalError" /\ class_of error_registry "B" (-32000) = "ServerError"
-  /\ class_of error_registry "B" 0 = "B" /\ class_of error_registry "B" 1 = "B" /\ class_of error_registry "B" (-32001) = "B".
+  /\ class_of error_registry "B" 0 = "HarnessZeroError" /\ class_of error_registry "B" 1 = "B" /\ class_of error_registry "B" (-32001) = "B".
 Proof. exact registry_classes. Qed.
 Theorem C05_versions : request_version = "2.0" /\ response_version = "2.0"
                  /\ batch_request_version = "2.0" /\ batch_response_version = "2.0".
